@@ -180,6 +180,13 @@ def render(spec, cfg):
         s.parse_err = tuple(x.replace("{ROOT}", "crate::") for x in s.parse_err)
     s.extra_enum_attrs = [a.replace("{STRUM}", strum).replace("{CRATE_PASS}", crate_pass) for a in s.extra_enum_attrs]
     src = s.render()
+    import zlib
+    if zlib.crc32(spec.name.encode()) % 3 == 0:
+        # a second enum with the same derives in the same module: module-level items a derive emits must not collide
+        comp = "#[derive(Debug, Clone, Copy, PartialEq, %s)]\n" % ", ".join("%s::%s" % (strum, d) for d in s.derives)
+        if s.crate_path:
+            comp += "#[strum(crate = %s)]\n" % rs_str(s.crate_path)
+        src += "\n" + comp + "pub enum Companion%s { First, #[strum(disabled)] Off, Last }\n" % spec.name
     if cfg == "c_shadow":
         src = "mod core {}\nmod std {}\nmod alloc {}\nmod strum_macros {}\n" + src
     if cfg == "b_abs":
